@@ -46,7 +46,7 @@ CHECKS = {
     ),
     "C14": dict(
         level="model_checking",
-        rule="configuration (parent scope x generateSelector x ignoreStatusChanges x controller selector) x every event shape: parent add/delete/tombstone/6 update kinds/resync for matching, non-matching and finalizer-carrying parents; child add/update/delete/tombstone/resync for 15 roles (incl. a controller reference naming the parent kind in another API version); related-object events (8); "
+        rule="configuration (parent scope x generateSelector x ignoreStatusChanges x controller selector) x every event shape: parent add/delete/tombstone/6 update kinds/resync for matching, non-matching and finalizer-carrying parents; child add/update/delete/tombstone/resync for 15 roles (incl. a controller reference naming the parent kind in another API version); parents incl. one that carries the finalizer plus a garbage-collector finalizer while being deleted; with and without a finalize hook; related-object events (8); "
              "each case = fresh world with the real Start()-installed handlers, one delivered event, queue compared with the decision table",
         units=[
             dict(pkg=COMPOSITE, test="TestVerifC14", shards=dict(quick=4, thorough=4), budget=dict(quick=300, thorough=600)),
@@ -115,7 +115,7 @@ CHECKS = {
     ),
     "C01": dict(
         level="model_checking",
-        rule="configuration (parent scope x 1-2 child kinds x 6 update methods x generateSelector x finalize hook x dynamic/server-side apply) x hook program (static 0-2, fromSpec, ordered StatefulSet-like, echoStatus) x initial cluster contents (two desired-name slots over {absent, owned, owned drifted, owned+foreign field, matching orphan, drifted orphan} x stale owned child x foreign-owned look-alike x same name in the other namespace; cluster-scoped parents: every desired child also has a same-named twin in a second namespace) "
+        rule="configuration (parent scope x 1-2 child kinds x 6 update methods x generateSelector x finalize hook x dynamic/server-side apply) x hook program (static 0-2, fromSpec, ordered StatefulSet-like, echoStatus) x initial cluster contents (two desired-name slots over {absent, owned, owned drifted, owned+foreign field, matching orphan, drifted orphan} x stale owned child x foreign-owned look-alike x same name in the other namespace; cluster-scoped parents: every desired child also has a same-named twin in a second namespace; some desired children carry annotations of the hook's own, omit their namespace, or echo the generated selector label) "
              "x stale-cache deviations (thorough: partial delivery in the first 0-2 rounds); each scenario is driven `sync; deliver; gc` to quiescence within N rounds, then one more sync; quick tier = a covering sub-product",
         units=[
             dict(pkg=COMPOSITE, test="TestVerifC01", shards=dict(quick=12, thorough=16), budget=dict(quick=600, thorough=3300)),
@@ -164,7 +164,7 @@ CHECKS = {
     ),
     "C04": dict(
         level="model_checking",
-        rule="part 1: selector form(6: matchLabels, In, NotIn, Exists, generated, empty) x object labels(3) x owner-reference list(6) x object deleting(2) x cached parent alive/deleting x live parent(4: same, deleting, replaced UID, gone) x children and ControllerRevisions x desired-child labels match/no-match x the live object's other owner references diverging from the cached ones (one added / one removed since observed: neither dropped nor resurrected), one real sync each; "
+        rule="part 1: selector form(6: matchLabels, In, NotIn, Exists, generated, empty) x object labels(3) x owner-reference list(6) x object deleting(2) x cached parent alive/deleting x live parent(4: same, deleting, replaced UID, gone) x children and ControllerRevisions x desired-child labels match/no-match (with selector generation: a foreign controller-uid label) x the live object's other owner references diverging from the cached ones (one added / one removed since observed: neither dropped nor resurrected), one real sync each; "
              "part 2: two parents with the same selector adopt one orphan concurrently - all interleavings at API-request granularity with at most 2 preemptions (thorough: unbounded) under the cooperative scheduler",
         units=[
             dict(pkg=COMPOSITE, test="TestVerifC04", shards=dict(quick=4, thorough=8), budget=dict(quick=300, thorough=1800)),
@@ -173,7 +173,7 @@ CHECKS = {
     ),
     "C02": dict(
         level="model_checking",
-        rule="part 1: a rich composite sync (create, in-place update, recreate, delete undesired, adopt, release; desired names occupied by a foreign-owned object and by a non-matching orphan; same-named look-alikes in the other namespace) under dynamic and server-side apply x every request boundary (0 = before the sync: stale cache) x environment action (delete, delete+recreate, foreign controller, clear owners, relabel) x target object(8), then a second sync on the partly stale caches (thorough: every PAIR of environment actions, ~410 000 cases, from a restored snapshot); bystanders include objects that list the parent as a plain, non-controller owner; "
+        rule="part 1: a rich composite sync (create, in-place update, recreate, delete undesired, adopt, release; desired names occupied by a foreign-owned object and by a non-matching orphan; same-named look-alikes in the other namespace) under dynamic and server-side apply x every request boundary (0 = before the sync: stale cache) x environment action (delete, delete+recreate, foreign controller, clear owners, relabel) x target object(8), then a second sync on the partly stale caches (thorough: every PAIR of environment actions, ~410 000 cases, from a restored snapshot); bystanders include objects that list the parent as a plain, non-controller owner; the child to be created carries a hook-provided plain owner reference to the parent; "
              "part 2: two parents with overlapping selectors syncing concurrently, all interleavings at API-request granularity with <= 2 (thorough 3) preemptions; part 3: the decorator counterpart (attachments controlled by the target AND carrying the decorator's marker; environment action 'other decorator's marker'); every store-changing request is judged against its logged pre-state",
         units=[
             dict(pkg=COMPOSITE, test="TestVerifC02", shards=dict(quick=8, thorough=16), budget=dict(quick=600, thorough=3000)),
@@ -200,7 +200,7 @@ CHECKS = {
         rewrite_sync=True,
         units=[
             dict(pkg=INFORMER, test="TestVerifC18", shards=dict(quick=16, thorough=16), budget=dict(quick=600, thorough=3000)),
-            dict(pkg=INFORMER, test="TestVerifC18Conc", shards=dict(quick=4, thorough=6), budget=dict(quick=600, thorough=3000)),
+            dict(pkg=INFORMER, test="TestVerifC18Conc", shards=dict(quick=6, thorough=9), budget=dict(quick=600, thorough=3000)),
             dict(pkg=INFORMER, test="TestVerifC18Race", race=True, shards=1, budget=dict(quick=600, thorough=1800), env=dict(GOMAXPROCS="8")),
         ],
         assumptions=["client-go's SharedIndexInformer is replaced by the deterministic vcache informer (list-watch mode against the sim); the per-handler resync ticker is fired by the harness (vtime import rewrite); everything else in factory.go / informer.go is the real code",
